@@ -726,7 +726,9 @@ func main() {
 		}
 		w.Flush()
 		f.Close()
-		os.RemoveAll(dir)
+		// (the directory is left to the caller: a crew that was just stopped may still be writing its state file, and the
+		// Stdio couplings panic when that write fails)
+		time.Sleep(20 * time.Millisecond)
 	case "mcrew-config":
 		mcrewConfig(os.Args[2])
 	case "mcrew-encode":
@@ -755,7 +757,9 @@ func main() {
 		}
 		w.Flush()
 		f.Close()
-		os.RemoveAll(dir)
+		// (the directory is left to the caller: a crew that was just stopped may still be writing its state file, and the
+		// Stdio couplings panic when that write fails)
+		time.Sleep(20 * time.Millisecond)
 	case "random":
 		n, _ := strconv.Atoi(os.Args[2])
 		seed, _ := strconv.Atoi(os.Args[3])
